@@ -588,6 +588,8 @@ def run_read(case, drv):
     lv_spec = spec.get("levels")
     dom = ("ok" in spec["header"]) and spec.get("framed", False) and spec.get("init_positive", False) and lv_spec is not None \
         and all(all(l["dom"].values()) and "ok" in l["out"] for l in lv_spec)
+    # the generator's notion of well-formed implies the hypothesis `Spec.wellFormed` of theorem `read_spec`
+    dom = dom and bool(spec.get("wf"))
     if not dom:
         tags.append("ill-formed")
     wf = dom
@@ -633,8 +635,13 @@ def run_read(case, drv):
                 ok = False
                 detail["spec_levels"] = "count"
             else:
-                for k, (il, l) in enumerate(zip(impl[2], lv_spec)):
-                    bad = level_diff(il, l["out"]["ok"])[0]
+                set_levels = spec["set"]["ok"] if "ok" in spec.get("set", {}) else None
+                if set_levels is None or len(set_levels) != len(lv_spec):
+                    ok = False
+                    detail["spec_set"] = "Spec.specSet undefined on a well-formed file"
+                    set_levels = [l["out"]["ok"] for l in lv_spec]
+                for k, (il, l) in enumerate(zip(impl[2], set_levels)):
+                    bad = level_diff(il, l)[0]
                     if bad:
                         ok = False
                         detail.setdefault("spec_levels", []).append([k, bad])
